@@ -53,6 +53,18 @@ class AsyncSink(SyncSink):
         return bytes(self.data)
 
 
+class FutureSink(AsyncSink):
+    """awrite()/aseek() hand the work to the executor and return its Future: awaitable, but not a coroutine"""
+    written = 0
+    files = 0
+
+    def awrite(self, data):
+        return asyncio.get_running_loop().run_in_executor(None, self.write, data)
+
+    def aseek(self, offset):
+        return asyncio.get_running_loop().run_in_executor(None, self.seek, offset)
+
+
 class C15(Prop):
     id = "C15"
     level = "exploration"
@@ -273,7 +285,10 @@ class C15(Prop):
         slack = c + len(form["boundary"]) + 4 + 8
         surf = plan["surface"]
         state = {"delivered": 0, "worst_pending": 0, "worst_field_over": 0, "asks": 0, "violated": None, "raised_at": None}
-        SyncSink.written = AsyncSink.written = 0
+        SyncSink.written = AsyncSink.written = FutureSink.written = 0
+        sink_cls = FutureSink if (surf == "parse_async_stream" and len(form["boundary"]) % 3 == 0) else AsyncSink
+        if sink_cls is FutureSink:
+            ctx.probe("sink_returns_future")
         counted = {"upload": 0}
 
         def file_bytes_upto(d):
@@ -286,7 +301,7 @@ class C15(Prop):
             """The parser asks for the next chunk: everything delivered so far has been processed."""
             state["asks"] += 1
             d = state["delivered"]
-            written = SyncSink.written + AsyncSink.written + counted["upload"]
+            written = SyncSink.written + AsyncSink.written + FutureSink.written + counted["upload"]
             pending = file_bytes_upto(d) - written
             state["worst_pending"] = max(state["worst_pending"], pending)
             if limit is not None:
@@ -327,7 +342,7 @@ class C15(Prop):
                     from baize.multipart_helper import parse_async_stream
 
                     async def scenario(loop):
-                        return await parse_async_stream(achunks(), form["boundary"].encode("latin-1"), "utf8", file_factory=AsyncSink, **kw)
+                        return await parse_async_stream(achunks(), form["boundary"].encode("latin-1"), "utf8", file_factory=sink_cls, **kw)
 
                     res, _ = run_sim(scenario, ctx.sched, ctx, vcap=1e6, step_cap=2_000_000)
                     outcome = ("ok", len(res))
